@@ -54,7 +54,7 @@ type Check interface {
 
 var registry = map[string]Check{}
 
-func Register(c Check) { registry[c.ID()] = c }
+func Register(c Check)    { registry[c.ID()] = c }
 func Get(id string) Check { return registry[id] }
 func IDs() []string {
 	var l []string
@@ -102,7 +102,7 @@ func (c *Ctx) Case(nontrivial bool, outcome string) {
 	}
 }
 
-func (c *Ctx) Trans(n int64)             { c.Transitions += n }
+func (c *Ctx) Trans(n int64)              { c.Transitions += n }
 func (c *Ctx) Count(name string, n int64) { c.Counters[name] += n }
 
 // Fail records a failure. Only the first few examples per signature are kept per range,
